@@ -208,10 +208,16 @@ impl Response {
             let content_length: usize = content_length
                 .parse()
                 .map_err(|_| ResponseError::Response)?;
-            let mut content_buf: Vec<u8> = vec![0u8; content_length];
+            // The claimed length is not trusted: the buffer only grows with the data actually received.
+            let mut content_buf: Vec<u8> = Vec::new();
             reader
-                .read_exact(&mut content_buf)
+                .by_ref()
+                .take(content_length as u64)
+                .read_to_end(&mut content_buf)
                 .map_err(|_| ResponseError::Stream)?;
+            if content_buf.len() != content_length {
+                return Err(ResponseError::Stream);
+            }
 
             Ok(Self {
                 version,
